@@ -35,8 +35,9 @@ VARIABLES doc0,          \* the document the user supplied
           props,         \* abstract result of the reference propagation on d1, d2, ...
           simParams, sim0, simEntry, saved,
           lib,           \* the equipment library object shared by every design of the process: [power |-> SI power_dbm]
-          proc,          \* what the process did before: "fresh" | "used" (other designs, possibly with another library whose
-                         \* amplifiers have the same names); no action of a design reads it
+          proc,          \* the process the design runs in: "fresh" | "used" (other designs before, possibly with another library
+                         \* whose amplifiers have the same names; another interpreter / string hash seed); no action of a
+                         \* design reads it
           effective,     \* effective gains of the last propagation (saturation may reduce them below the set gains in doc)
           reexport       \* export of the designed network taken again after it carried a propagation
 vars == <<doc0, doc, cfg, pc, round, carry, rgain, exports, twin, props, simParams, sim0, simEntry, saved, lib, proc,
